@@ -44,6 +44,8 @@ where
     W: Write,
     S: Sample,
 {
+    let mut is_empty = true;
+
     for (i, result) in sample.iter(header).enumerate() {
         let (_, value) = result.map_err(WriteError::Io)?;
 
@@ -55,6 +57,14 @@ where
             Some(v) => write_value(writer, header, &v).map_err(WriteError::InvalidValue)?,
             None => writer.write_all(MISSING).map_err(WriteError::Io)?,
         }
+
+        is_empty = false;
+    }
+
+    // A sample with no fields, e.g., a lazily read "." column, is a missing sample, not an empty
+    // column.
+    if is_empty {
+        writer.write_all(MISSING).map_err(WriteError::Io)?;
     }
 
     Ok(())
